@@ -56,11 +56,16 @@ type Ctx struct {
 	specErrs []string
 	stats    ctxStats
 	usedContracts map[*Contract]bool
+	lazyArr  map[string]func(idx string) string
+	lazyDone map[string]bool
+	nonlinear bool
+	mulMemo  map[string]string
+	quant    bool // emit quantified axioms for copy/append (default: pointwise on demand)
 }
 
 func newCtx(eng *Engine, name string) *Ctx {
 	c := &Ctx{eng: eng, declSet: map[string]string{}, defs: map[string]string{}, memSorts: map[string]string{},
-		notes: map[string]int{}, strs: map[string]string{}, funcName: name, usedContracts: map[*Contract]bool{}}
+		notes: map[string]int{}, strs: map[string]string{}, funcName: name, usedContracts: map[*Contract]bool{}, lazyArr: map[string]func(string) string{}, lazyDone: map[string]bool{}, mulMemo: map[string]string{}}
 	return c
 }
 
@@ -174,6 +179,9 @@ func (o *Obl) script(produceModels bool) string {
 			b.WriteByte('\n')
 			di++
 			continue
+		}
+		if o.ExpectSat && strings.Contains(a, "(forall ") {
+			continue // cover/canary queries check the quantifier-free part of the assumptions
 		}
 		b.WriteString("(assert ")
 		b.WriteString(a)
